@@ -118,6 +118,7 @@ PLANS = {
                   ex("gapTk", "gapT", 1, 3, kinds=["mapped", "mstream", "wctx", "io"], modes=["E"]),
                   ex("spni3", "spni", 3, 3, kinds=["iter"], modes=["E"]), ex("gapTi", "gapTi", 1, 3, kinds=["iter"], modes=["E"]),
                   ex("progTk", "progT", 1, 3, kinds=["stream", "io", "mstream", "wctx", "array"], modes=["E"]),
+                  {"kind": "inputs", "name": "kinds", "ops": 4},
                   rec("longS", "seek", 24, 7, 1100, minlen=500, kinds=["stream", "bstream", "mstream"]),
                   rec("pegRk", "peg", 2500, 8, 8, kinds=ALL_KINDS), rec("spngRk", "spng", 1500, 8, 8, kinds=["mapped", "mstream", "stream", "wctx", "mapspan", "io"])],
         "thorough": [ex("peg2k", "peg", 2, 3, kinds=ALL_KINDS), ex("rep2k", "rep", 2, 4, alphabet=["a", ","], kinds=ALL_KINDS, modes=["E"]),
@@ -127,6 +128,7 @@ PLANS = {
                      ex("spng4k", "spng", 4, 3, kinds=["mapped", "mstream", "wctx", "mapspan"], modes=["E"]),
                      ex("gapTk", "gapT", 1, 4, kinds=ALL_KINDS),
                      ex("spni4", "spni", 4, 3, kinds=["iter", "mapped"], modes=["E"]), ex("gapTi", "gapTi", 1, 4, kinds=["iter"]),
+                     {"kind": "inputs", "name": "kinds", "ops": 5, "small_ops": 7},
                      rec("longS", "seek", 300, 8, 1600, minlen=500, kinds=["stream", "bstream", "mstream", "io"], timeout=3000),
                      rec("pegRk", "peg", 30000, 10, 10, kinds=ALL_KINDS), rec("spngRk", "spng", 20000, 10, 10, kinds=["mapped", "mstream", "stream", "wctx", "mapspan", "io"])],
     },
